@@ -59,8 +59,10 @@ def run(ctx):
     for i, s in enumerate(scns):
         s["id"] = i + 1
         concretise(s, rnd)
+    if ctx.replay_scn:
+        scns = [ctx.replay_scn]
     # random scenarios beyond the model's bounds
-    nrand = 4000 if ctx.thorough else 500
+    nrand = 0 if ctx.replay_scn else (4000 if ctx.thorough else 500)
     for i in range(nrand):
         hint = rnd.random() < 0.7
         ops = [rnd.choice(["get", "readat", "readat2"] + (["file"] if hint else [])) for _ in range(rnd.randint(1, 6))]
